@@ -6,6 +6,7 @@ import (
 	"math/rand/v2"
 	"os"
 	"path/filepath"
+	"strings"
 	"time"
 
 	"github.com/oasisprotocol/oasis-core/go/common/cbor"
@@ -359,4 +360,19 @@ func (t *sgxTarget) Canary() string {
 		}
 	}
 	return ""
+}
+
+// FixedPlans: every prefix / deletion / length-field delta of every vector and bundle.
+func (t *sgxTarget) FixedPlans(rng *rand.Rand) []fixedPlan {
+	var out []fixedPlan
+	for _, s := range t.seeds {
+		if s.CBOR || strings.HasPrefix(s.Aux, "tcbjson") {
+			// Bundles repeat the same collateral (JSON, PEM) five times: beyond 4 KiB the first
+			// 2 KiB, the CBOR item boundaries and a sample.
+			out = append(out, newFixedPlanLimits(rng, s, s.Aux, "", nil, 4096, 2048))
+			continue
+		}
+		out = append(out, newFixedPlan(rng, s, s.Aux, "", nil)) // binary quotes, AVR bodies: every position
+	}
+	return out
 }
